@@ -107,6 +107,31 @@ def check(an: Analysis) -> None:
                 "raise-other": "raises a different exception - the cancellation is masked",
             }[kind]
             ob.fail(fi, h, f"handler that can catch CancelledError {what}", CFG.show_path(path + [node] if path and path[-1] is not node else path))
+    # a `finally` block through which a CancelledError may be propagating must let it continue: a `raise <other>` / `return` /
+    # loop jump written in the block replaces or drops it (errors *raised by* the cleanup code are a different matter)
+    from ..cfg import ANY, exc_is_sub
+
+    n_fin = 0
+    for fi in prog.scan_functions():
+        if not any(isinstance(n, ast.Try) and n.finalbody for n in fi.own_nodes()):
+            continue
+        gf = an.cfg(fi)
+        for entry in [n for n in gf.nodes if n.kind == "finally" and n.meta.get("continuation") == "exc"]:
+            pend = entry.meta.get("pending", frozenset())
+            if not (ANY in pend or any(exc_is_sub("CancelledError", c) or exc_is_sub(c, "CancelledError") for c in pend)):
+                continue
+            suspends = any(isinstance(x, (ast.Await, ast.AsyncFor, ast.AsyncWith, ast.Yield)) for st in entry.ast.body for x in ast.walk(st)) if isinstance(entry.ast, ast.Try) else True
+            if not suspends:
+                continue  # no suspension point in the protected body: a cancellation cannot be what propagates
+            n_fin += 1
+            ob.inst(fi, entry.ast, "finally with a cancellation possibly propagating")
+            w = gf.search([entry], lambda n: n.kind in ("raise", "return", "exit-return") or (n.kind == "stmt" and isinstance(n.ast, (ast.Break, ast.Continue))), skip_node=lambda n: n.kind == "reraise", skip_edge=lambda a, b, lab: lab in ("exc", "reraise"))
+            if w is not None and all(x.kind != "reraise" for x in w) and (w[-1].kind != "exit-return" or True):
+                end = w[-1]
+                inside = isinstance(entry.ast, ast.Try) and end.ast is not None and any(end.ast is x or end.stmt is x for st in entry.ast.finalbody for x in ast.walk(st))
+                if inside:
+                    ob.fail(fi, end.ast, "a `finally` block replaces / drops the exception propagating through it: a cancellation delivered inside the protected block is lost (the task does not end cancelled)", CFG.show_path(w))
+    ob.note(f"{n_fin} finally blocks a cancellation can propagate through")
     for fi, c in suppress_calls(an):
         ob.fail(fi, c, "contextlib.suppress of BaseException/CancelledError swallows cancellation")
     for fi, c in uncancel_calls(an):
